@@ -50,10 +50,13 @@ K07 = [
 
 
 def instances(tier):
+    from harness.bcommon import len2_variants
+
     out = []
     for k, (s, actions) in enumerate(K07):
         for a in actions:
-            out.append(("%s.%s" % (s.name, a.replace("/", "_")), dict(k=k, action=a)))
+            for suf, slot in len2_variants(s, tier):
+                out.append(("%s.%s%s" % (s.name, a.replace("/", "_"), suf), dict(k=k, action=a, len2=slot)))
     return out
 
 
@@ -61,7 +64,10 @@ from harness.c07_post import idempotent  # noqa: E402
 
 
 def make_run(p):
+    from harness.bcommon import with_len2
+
     s, actions = K07[p["k"]]
+    s = with_len2(s, p.get("len2"))
     action = p["action"]
 
     def build_op(sk_, names, files, cf):
